@@ -126,9 +126,11 @@ func (c *Checker) Guided(src *Source, parser *ssa.Function, it string, root stri
 	res.Problems = append(res.Problems, src.Problems...)
 	ip := c.IP
 	o := &oracle{c: c, src: src, it: it, assumed: map[string]bool{}}
-	savedO, savedL, savedI, savedP := ip.Oracle, ip.LinOfBits, ip.InlineCalls, ip.MaxPaths
-	ip.Oracle, ip.LinOfBits, ip.InlineCalls, ip.MaxPaths = o, o.linOfBits, true, 400
-	defer func() { ip.Oracle, ip.LinOfBits, ip.InlineCalls, ip.MaxPaths = savedO, savedL, savedI, savedP }()
+	savedO, savedL, savedI, savedP, savedW := ip.Oracle, ip.LinOfBits, ip.InlineCalls, ip.MaxPaths, ip.StrictWrap
+	ip.Oracle, ip.LinOfBits, ip.InlineCalls, ip.MaxPaths, ip.StrictWrap = o, o.linOfBits, true, 400, true
+	defer func() {
+		ip.Oracle, ip.LinOfBits, ip.InlineCalls, ip.MaxPaths, ip.StrictWrap = savedO, savedL, savedI, savedP, savedW
+	}()
 	var rt types.Type
 	if r := parser.Signature.Results(); r.Len() > 0 {
 		rt = r.At(0).Type()
